@@ -215,7 +215,8 @@ REWRITE = {
              "PARTIAL: the decoders/pyo3 layer and the epoch loop are validated on the implementation only:")],
     "C03": [("PARTIAL: order across list files",
              "And (c03_unshuffled_interfaces_in_order) with shuffle=0 the three NumPy interfaces, as compositions regenerated from dataset_iteration.py, return exactly the examples of the selected shards in list order, "
-             "independent of thread count, random sequences and pool completion order. PARTIAL: order across list files")],
+             "independent of thread count, random sequences and pool completion order. And over whole histories (c03_session_block_in_order): whatever sessions precede and follow, the shards a filler session closed for a split appear contiguously, "
+             "in close order and with exactly the written examples, in the depth-first shard list of that split. PARTIAL: the order of a multi-writer call's directories, order across list files")],
 }
 for _pid, _subs in REWRITE.items():
     for _old, _new in _subs:
